@@ -67,6 +67,45 @@ def probe_variant(c, rebound, wd):
     return (f1, f11, False, f19)
 
 
+_asan = {}
+
+
+def asan_classify(hist, W):
+    """the real code died inside an archive operation: re-run the history on an AddressSanitizer build in a
+    subprocess and report where the first memory error happens -> (file, line, function) or None"""
+    import subprocess
+    try:
+        if "d" not in _asan:
+            _asan["d"] = build(sanitize=True)
+            _asan["lib"] = subprocess.run(["clang", "-print-file-name=libclang_rt.asan-x86_64.so"], capture_output=True, text=True).stdout.strip()
+        wd = os.path.join(W, "asan")
+        shutil.rmtree(wd, ignore_errors=True)
+        os.makedirs(wd)
+        hp = os.path.join(wd, "hist.json")
+        json.dump(hist, open(hp, "w"))
+        script = ("import sys, json; sys.path.insert(0, %r); sys.path.insert(0, %r); import warnings; warnings.filterwarnings('ignore'); "
+                  "import archive_common as ac, rebound; ac.run_history(rebound, json.load(open(%r)), %r, True)") % (
+                      os.path.dirname(os.path.abspath(__file__)), _asan["d"], hp, wd)
+        log = os.path.join(wd, "asan.log")
+        env = dict(os.environ, LD_PRELOAD=_asan["lib"], ASAN_OPTIONS="detect_leaks=0:abort_on_error=0")
+        with open(log, "w") as lf:
+            subprocess.run([sys.executable, "-c", script], stdout=lf, stderr=lf, env=env, timeout=180)
+        txt = open(log, errors="replace").read()
+        i = txt.find("ERROR: AddressSanitizer")
+        if i < 0:
+            return None
+        import re as _re
+        kind = txt[i:i + 120].split("\n")[0]
+        for m in _re.finditer(r"#\d+ 0x[0-9a-f]+ in (\w+) .*?/src/(\w+\.c):(\d+)", txt[i:i + 6000]):
+            return (m.group(2), int(m.group(3)), m.group(1), kind[:80])
+        return ("?", 0, "?", kind[:80])
+    except Exception as e:
+        return ("asan-run-failed", 0, repr(e)[:80], "")
+
+
+ARCHIVE_SOURCES = ("binarydiff.c", "simulationarchive.c", "output.c", "input.c")
+
+
 def first_diff(a, b):
     for i in range(min(len(a), len(b))):
         if a[i] != b[i]:
@@ -129,7 +168,7 @@ def _run(c, rebound, exe, W):
     c.log("source behaves as model variant", V)
     nh = 2500 if c.thorough else 260
     maxapp = 25 if c.thorough else 10
-    budget = (22 * 60) if c.thorough else 110
+    budget = (22 * 60) if c.thorough else 85
     c.cov["rule"] = ("histories = random op lists (integrate k steps, add/remove particle, switch among 11 integrators, "
                      "reset_integrator, 26 settings, variational particles order 1/2, merging collision, coordinate edit, manual "
                      "snapshot; a quarter built by construction so that a persisted array vanishes / shrinks to zero / reappears / "
@@ -149,6 +188,7 @@ def _run(c, rebound, exe, W):
                  lagging=0, reader_overflow=0, model_undefined=0, eq_checked=0, fieldwise_checked=0, link_true=0, merges=0, nocapture=0)
     integ_hist = {}
     hazards = {}
+    outside = {}
     kinds_hist = {}
     t_start = time.time()
     batch = []
@@ -382,8 +422,15 @@ def _run(c, rebound, exe, W):
             prog = open(os.path.join(wd, "progress")).read() if os.path.exists(os.path.join(wd, "progress")) else "?"
             opn = prog.split()[-1]
             if opn in ("snap", "auto_interval", "auto_step") or (opn == "integrate" and rc != -14):
-                stats["child_crash"] += 1
-                c.violation("crash:%s" % opn, "real code died (rc %s) during '%s'" % (rc, prog), dict(history=hist, progress=prog))
+                # heap damage done earlier (by an integrator) typically shows at the next malloc, i.e. here:
+                # locate the first memory error with an AddressSanitizer build before blaming the archive code
+                loc = asan_classify(hist, W)
+                if loc is not None and loc[0] not in ARCHIVE_SOURCES and loc[0] not in ("?", "asan-run-failed"):
+                    key = "%s:%d" % (loc[0], loc[1])
+                    outside[key] = outside.get(key, 0) + 1
+                else:
+                    stats["child_crash"] += 1
+                    c.violation("crash:%s" % opn, "real code died (rc %s) during '%s' (first memory error: %s)" % (rc, prog, loc), dict(history=hist, progress=prog, asan=loc))
             else:
                 hazards[opn] = hazards.get(opn, 0) + 1
             shutil.rmtree(wd, ignore_errors=True)
@@ -407,6 +454,7 @@ def _run(c, rebound, exe, W):
         flush(batch)
     c.cov.update(stats)
     c.cov["generator_hazards_dropped"] = hazards
+    c.cov["memory_errors_outside_the_archive_code"] = outside
     c.cov["first_integrator_histogram"] = integ_hist
     c.cov["history_kind_histogram"] = kinds_hist
     c.log("histories %d appends %d bytes_equal %d index_equal %d snapshots %d" % (stats["histories"], stats["appends"], stats["bytes_equal"], stats["index_equal"], stats["snapshots_decoded"]))
